@@ -2,13 +2,18 @@ import Tickit.Model.TermPen
 import Tickit.Driver.Common
 /-
   Engine `sgr` (C10).
-    new x <rgb8> <colon> <reply|ctl> | new g <colors> <rgb8> <colon> | new t     (renew … = the same, mid-history)
+    new x <rgb8> <colon> <reply|ctl> [<pen>] | new g <colors> <rgb8> <colon> [<pen>] | new t     (renew … = the same, mid-history)
+        with <pen>: the history starts with <pen> in force (a `setpen <pen>` issued as part of the construction and judged like
+        any other request; observation `<construction> init <request>`)
     setpen <pen> | chpen <pen> | palette
   Model observation = what harness/sgr.c prints.  Specification verdict: the SGR interpreter of
   `Model/Sgr.lean` is run on the bytes the *implementation* emitted (configuration `x`), or on the
   bytes the modelled xterm encoder produces from the (delta, final) pens the *implementation* handed
   to the driver (configuration `g`); the resulting rendering attributes must equal
   `expected cfg (logical pen)`, and a request that leaves the logical pen unchanged must be silent.
+  "change-pen overlays only the attributes present in its argument" is also judged on its own (`frameDiff`): the bytes of a
+  `chpen` must leave every rendering attribute whose pen attribute is absent from the argument as it was — whatever state the
+  terminal was in (so also when an earlier request could not be encoded).
 -/
 namespace Tickit.Driver.SgrEngine
 open Tickit Tickit.Driver Tickit.TermPen Tickit.Sgr
@@ -100,15 +105,38 @@ def diffAttrs (have_ want : Attrs) : String :=
   else if have_.junk ≠ want.junk then s!"{have_.junk} SGR parameter(s) not understood by the reference interpreter"
   else ""
 
+/-- "change-pen overlays only the attributes present in its argument": first rendering attribute, absent from the argument
+    `p` of a `chpen`, that the bytes of the request changed on the terminal. -/
+def frameDiff (p : Pen) (before after : Attrs) : String :=
+  let chg (what : String) (absent differs : Bool) (b a : String) : Option String :=
+    if absent && differs then some s!"chpen changed {what} on the terminal ({b} -> {a}) although its argument has no {what}" else none
+  let cs : List (Option String) := [
+    chg "fg" p.fg.isNone (before.fg ≠ after.fg) (showColr before.fg) (showColr after.fg),
+    chg "bg" p.bg.isNone (before.bg ≠ after.bg) (showColr before.bg) (showColr after.bg),
+    chg "bold" p.bold.isNone (before.bold ≠ after.bold) (toString before.bold) (toString after.bold),
+    chg "under" p.under.isNone (before.under ≠ after.under) (toString before.under) (toString after.under),
+    chg "italic" p.italic.isNone (before.italic ≠ after.italic) (toString before.italic) (toString after.italic),
+    chg "reverse" p.reverse.isNone (before.reverse ≠ after.reverse) (toString before.reverse) (toString after.reverse),
+    chg "strike" p.strike.isNone (before.strike ≠ after.strike) (toString before.strike) (toString after.strike),
+    chg "altfont" p.altfont.isNone (before.font ≠ after.font) (toString before.font) (toString after.font),
+    chg "blink" p.blink.isNone (before.blink ≠ after.blink) (toString before.blink) (toString after.blink),
+    chg "sizepos" p.sizepos.isNone (before.sizepos ≠ after.sizepos) (showSizePos before.sizepos) (showSizePos after.sizepos)]
+  (cs.filterMap id).headD ""
+
 /-- value of `key=` in an observation -/
 def field? (ts : List String) (key : String) : Option String :=
   (ts.find? (·.startsWith (key ++ "="))).map (fun t => (t.drop (key.length + 1)).toString)
 
-def specAfter (st : DState) (vt' : VT) (l' : Pen) (bytes : List Nat) (noopCheck : Bool) : String :=
+def specAfter (st : DState) (vt' : VT) (l' : Pen) (bytes : List Nat) (noopCheck : Bool) (chArg : Option Pen := none) : String :=
   if vt'.st ≠ .ground then "the terminal is left inside an unterminated control sequence"
   else
+    let fr := match chArg with
+      | some p => frameDiff p st.vt.attrs vt'.attrs
+      | none => ""
     let d := diffAttrs vt'.attrs (expected st.cfg l')
-    if d ≠ "" then d
+    -- the verdict names what the logical pen wants; the frame clause is added when it fails too
+    if d ≠ "" then (if fr ≠ "" then d ++ "; " ++ fr else d)
+    else if fr ≠ "" then fr
     else if noopCheck && l' = st.logical && !bytes.isEmpty then
       s!"request leaves the logical pen unchanged but emits {bytes.length} bytes"
     else ""
@@ -120,6 +148,7 @@ def palettePairs : List String :=
 def penOp (st : DState) (op : Op) (impl : String) : DState × String × String :=
   let its := toks impl
   let l' := logicalStep st.logical op
+  let chArg : Option Pen := if op.isSet then none else some op.pen
   -- model
   let delta := termDelta op.isSet st.cfg.colors st.cache op.pen
   let cache' := termCache op.isSet st.cfg.colors st.cache op.pen
@@ -135,7 +164,7 @@ def penOp (st : DState) (op : Op) (impl : String) : DState × String × String :
       | some bs =>
         let bytes := bs.map (·.toNat)
         let vt' := run bytes st.vt
-        (vt', specAfter st vt' l' bytes true)
+        (vt', specAfter st vt' l' bytes true chArg)
       | none =>
         (st.vt, if impl.startsWith "CRASH" then s!"the implementation aborted under the sanitizers ({impl})"
                 else s!"no bytes to interpret: implementation said '{impl}'")
@@ -148,18 +177,14 @@ def penOp (st : DState) (op : Op) (impl : String) : DState × String × String :
         match xtermChpen st.cfg.caps st.cfg.cap d f with
         | .bytes bytes =>
           let vt' := run bytes st.vt
-          (vt', specAfter st vt' l' bytes true)
+          (vt', specAfter st vt' l' bytes true chArg)
         | .overflow n => (st.vt, s!"the xterm encoder would need {n} parameters")
       | _, _ =>
         (st.vt, if impl.startsWith "CRASH" then s!"the implementation aborted under the sanitizers ({impl})"
                 else s!"no (delta, final) to interpret: implementation said '{impl}'")
     ({ st with cache := cache', logical := l', vt := vt' }, mobs, sv)
 
-def step (st : DState) (ts0 : List String) (impl : String) : DState × String × String :=
-  -- `renew …` = `new …` inside a running history: a fresh terminal, a fresh model
-  let ts := match ts0 with
-    | "renew" :: rest => "new" :: rest
-    | _ => ts0
+def stepBase (st : DState) (ts : List String) (impl : String) : DState × String × String :=
   match ts with
   | ["new", "x", rgb8, colon, how] =>
     match int? rgb8, int? colon with
@@ -196,6 +221,32 @@ def step (st : DState) (ts0 : List String) (impl : String) : DState × String ×
     | "chpen", some p => penOp st (.ch p) impl
     | _, _ => (st, "bad-op", "")
   | _ => (st, "bad-op", "")
+
+/-- text after the first ` init ` of an observation (the part about the initial request), and the text before it -/
+def splitInit (impl : String) : String × String :=
+  match impl.splitOn " init " with
+  | a :: b :: rest => (a, " init ".intercalate (b :: rest))
+  | _ => (impl, "")
+
+def step (st : DState) (ts0 : List String) (impl : String) : DState × String × String :=
+  -- `renew …` = `new …` inside a running history: a fresh terminal, a fresh model
+  let ts := match ts0 with
+    | "renew" :: rest => "new" :: rest
+    | _ => ts0
+  match ts with
+  | ["new", kind, a, b, c, pen] =>
+    -- a history that starts with `pen` in force: construction, then `setpen pen`
+    if kind ≠ "x" ∧ kind ≠ "g" then ({}, "bad-op", "") else
+    match parsePen pen with
+    | none => ({}, "bad-op", "")
+    | some p =>
+      let (i1, i2) := splitInit impl
+      let (st1, m1, s1) := stepBase st ["new", kind, a, b, c] i1
+      if m1 = "bad-op" then ({}, "bad-op", "") else
+      let (st2, m2, s2) := penOp st1 (.set p) i2
+      (st2, m1 ++ " init " ++ m2,
+        if s1 ≠ "" then s1 else if s2 ≠ "" then "pen in force at the start (setpen): " ++ s2 else "")
+  | _ => stepBase st ts impl
 
 def engine : Engine := { σ := DState, init := {}, step := step }
 
